@@ -179,10 +179,10 @@ func runC19(c c19Case) (bool, error) {
 	if want := tm.Truncate(unit); c.Logical != "date" && !back.Equal(want) {
 		return true, fmt.Errorf("%s: %v written and read back as %v, want the time at that resolution %v", c.Logical, tm.UTC(), back.UTC(), want.UTC())
 	}
-	if diff := tm.Sub(back); diff < 0 || diff >= unit {
+	if ds := tm.Unix() - back.Unix(); ds < 0 || ds > int64(unit/time.Second) {
 		return true, fmt.Errorf("%s: %v written and read back as %v: not the same %v", c.Logical, tm.UTC(), back.UTC(), unit)
 	}
-	nonMultiple := tm.UnixNano()%int64(unit) != 0
+	nonMultiple := c.Nsec != 0 || c.Sec%int64(unit/time.Second+1) != 0
 	return c.Sec < 0 || nonMultiple, nil
 }
 
@@ -256,6 +256,11 @@ func TestC19(t *testing.T) {
 				ns -= ns % unit
 			}
 			c.Sec, c.Nsec = floorDiv(ns, 1e9), ns-floorDiv(ns, 1e9)*1e9
+			if l == "date" && rapid.Bool().Draw(rt, "farDate") {
+				// a date only needs its day count to fit int32: any time within +-5.8 million years
+				day := gen.IntIn(rt, "day", math.MinInt32, math.MaxInt32)
+				c.Sec = day*86400 + int64(rapid.IntRange(0, 86399).Draw(rt, "secOfDay"))
+			}
 			if c.Sec == -62135596800 && c.Nsec == 0 {
 				c.Sec = 0
 			}
